@@ -113,6 +113,10 @@ class Result:
         return "violation"
 
     def finish(self, level="model_checking"):
+        if ESCAPE_LOG:
+            # nothing may escape a framework callback: on the unchanged tree this never happens in any driver
+            path = self.write_replay("escaped-framework-callback", dict(escapes=ESCAPE_LOG[:20]))
+            self.violation("exception escaped a timer / connection_lost callback: %s" % ESCAPE_LOG[0]["exc"], path)
         for f in self._known.get("known", []):
             if self.pid in f["property"] and f["id"] in self.known_hits:
                 print("KNOWN-FINDING: property=%s %s %s (seen %d times)" % (self.pid, f["id"], f["what"], self.known_hits[f["id"]]))
@@ -157,6 +161,9 @@ def driver_env(fw=None, nvx=None, nvx_dir=None, seed=0, extra=None):
     return e
 
 
+ESCAPE_LOG = []      # exceptions that escaped a timer / connection_lost callback in some driver of this check (see harness/fw.py)
+
+
 def run_driver(module, args=(), env=None, timeout=3600, input_obj=None):
     """Run `python -m harness.drivers.<module> args...`; the driver writes one JSON document to
     the file named by env VERIF_OUT.  Returns the parsed document."""
@@ -177,7 +184,10 @@ def run_driver(module, args=(), env=None, timeout=3600, input_obj=None):
             raise MachineryError("driver %s %s failed (exit %s):\n%s" % (
                 module, list(args), p.returncode, p.stderr.decode("utf8", "replace")[-4000:]))
         with open(out) as f:
-            return json.load(f)
+            doc = json.load(f)
+        for x in doc.get("_escapes") or []:
+            ESCAPE_LOG.append(dict(driver=module, fw=e.get("VERIF_FW"), **x))
+        return doc
     finally:
         for x in (out, inp):
             if x and os.path.exists(x):
@@ -193,6 +203,9 @@ def run_drivers_parallel(jobs, max_par=16):
 
 
 def driver_out(obj):
+    fwm = sys.modules.get("harness.fw")
+    if fwm is not None and getattr(fwm, "ESCAPES", None):
+        obj["_escapes"] = fwm.ESCAPES[:50]
     with open(os.environ["VERIF_OUT"], "w") as f:
         json.dump(obj, f, separators=(",", ":"), default=str)
 
